@@ -143,14 +143,20 @@ def run(ctx):
     site = "ppci/arch/riscv/instructions.py:Li.render"
     ifs = [n for n in walk_no_nested(li) if isinstance(n, ast.If)]
     carry = [n for n in ifs if any(isinstance(b, ast.AugAssign) and try_const(b.value) == 0x1000 for b in n.body)]
-    ok = bool(carry) and norm(carry[0].test) in ("self.imm & 2048 != 0", "self.imm & 2048", "self.imm >> 11 & 1", "self.imm & 2048 == 2048")
+    # the value being split: self.imm itself, or a local copy of it (the operand must not be changed by rendering: C10.R7)
+    V = "self.imm"
+    if carry:
+        V = norm([b for b in carry[0].body if isinstance(b, ast.AugAssign)][0].target)
+    src_ok = V == "self.imm" or any(norm(v) == "self.imm" for v in assigned_values(li, V))
+    ok = bool(carry) and src_ok and norm(carry[0].test) in ("%s & 2048 != 0" % V, "%s & 2048" % V, "%s >> 11 & 1" % V, "%s & 2048 == 2048" % V)
     ctx.ob("C05.R5", site, "0x1000 is added before the lui part is taken exactly when bit 11 is set (the addi part is sign-extended)", ok, construct="carry", detail=norm(carry[0].test) if carry else "no `+= 0x1000` under a test")
     lui = [c for c in calls_in(li, "Lui")]
     addi = [c for c in calls_in(li, "Addi")]
-    ok = bool(lui) and norm(lui[0].args[1]) == "self.imm >> 12" and bool(carry) and carry[0].lineno < lui[0].lineno
-    ctx.ob("C05.R5", site, "lui takes bits 12.. of the (carry-adjusted) value", ok, construct="lui")
+    ok = bool(lui) and norm(lui[0].args[1]) in ("%s >> 12" % V, "%s >> 12 & 1048575" % V) and bool(carry) and carry[0].lineno < lui[0].lineno
+    ctx.ob("C05.R5", site, "lui takes bits 12.. of the (carry-adjusted) value", ok, construct="lui", detail=norm(lui[0].args[1]) if lui else "")
     low = [v for v in assigned_values(li, "lower_bits")]
-    ok = any(norm(v) == "self.imm & 4095" for v in low) and any(norm(a.args[2]) == "lower_bits" and norm(a.args[0]) == norm(a.args[1]) == "self.rd" for a in addi)
+    big = [a for a in addi if norm(a.args[0]) == norm(a.args[1]) == "self.rd"]
+    ok = bool(big) and (norm(big[0].args[2]) == "%s & 4095" % V or (norm(big[0].args[2]) == "lower_bits" and any(norm(v) == "%s & 4095" % V for v in low)))
     ctx.ob("C05.R5", site, "addi adds the low 12 bits to the same register", ok, construct="addi")
     small = [n for n in ifs if "inrange(self.imm, 12)" in norm(n.test)]
     ctx.ob("C05.R5", site, "a single addi is used only when the value fits 12 signed bits", bool(small) and any("Addi(self.rd, R0, self.imm)" in norm(b) for b in small[0].body), construct="small")
